@@ -32,7 +32,8 @@ var assumptions = []string{
 func TestMain(m *testing.M) { evid.Main(m, "C03", rule, assumptions) }
 
 // H is one handler program. Ops: "s<code>" write status, "b" write body,
-// "n" Next, "r" Next under recover, "c" cancel, "p" panic.
+// "n" Next, "r" Next under recover, "c" cancel, "d" install a derived request
+// context and cancel that, "p" panic.
 // Ret: "" none, "str", "empty", "nilerr", "err".
 type H struct {
 	Ops []string `json:"ops"`
@@ -146,7 +147,7 @@ func (m *interp) exec(i int, h *H) {
 				m.run()
 			}()
 			m.ev("back %d", i)
-		case op == "c":
+		case op == "c", op == "d":
 			m.cancelled = true
 		case op == "p":
 			m.ev("panic %d", i)
@@ -225,6 +226,12 @@ func real(c Case) (res result) {
 					ev("back %d", i)
 				case op == "c":
 					cancel()
+				case op == "d":
+					// the handler installs a derived context on the request and
+					// that one is cancelled: "the request context" is now cancelled
+					derived, cancelDerived := gocontext.WithCancel(ctx.Request().Context())
+					ctx.Request().Request = ctx.Request().WithContext(derived)
+					cancelDerived()
 				case op == "p":
 					ev("panic %d", i)
 					panic(harnessPanic{i})
@@ -341,7 +348,7 @@ func checkCase(c Case) (out evid.Outcome) {
 					out.NonTrivial = true
 					out.Classes = append(out.Classes, "next-after-write-or-cancel")
 				}
-			case op == "b" || op[0] == 's' || op == "c":
+			case op == "b" || op[0] == 's' || op == "c" || op == "d":
 				seenWriteOrCancel = true
 			}
 		}
@@ -478,8 +485,10 @@ func genH(t *rapid.T) H {
 			h.Ops = append(h.Ops, "b")
 		case k < 16:
 			h.Ops = append(h.Ops, fmt.Sprintf("s%d", []int{200, 201, 204, 302, 404, 500}[rapid.IntRange(0, 5).Draw(t, "code")]))
-		case k < 18:
+		case k < 17:
 			h.Ops = append(h.Ops, "c")
+		case k < 18:
+			h.Ops = append(h.Ops, "d")
 		default:
 			h.Ops = append(h.Ops, "p")
 		}
